@@ -304,6 +304,55 @@ def run(chk):
     for arr in ("m_coord", "m_zcorn"):
         if not any(arr in t for t in tos):
             chk.violation(r_eg, "length:load:" + arr, "initGridFromEGridFile no longer converts %s to SI for non-metric files" % arr, rd["file"], rd["l"])
+    # ---- C13.unitname: the three places that map a grid length-unit name to a unit system agree
+    r_un = chk.rule("C13.unitname", "GRIDUNIT names and unit systems: make_grid_units (deck), EclipseGrid::save (writer) and the EGRID loader map METRES/FEET/CM to the same UnitSystem::UnitType", floor=8)
+    pairs = {}       # name -> {unit type: [where]}
+    for f in fx.fns:
+        if not f.get("body") or not f["file"].endswith("EclipseGrid.cpp"):
+            continue
+        for n in walk_fn(f):
+            if n["k"] == "If":
+                lits = []
+                for c in walk(n["cond"]):
+                    if (c["k"] == "OpCall" and c.get("op") == "==" and len(c.get("a", [])) == 2) or (c["k"] == "Bin" and c.get("op") == "=="):
+                        ops = c.get("a") or c.get("c")
+                        for o in ops:
+                            lits += [x["v"] for x in walk(o) if x["k"] == "Str"]
+                if len(lits) != 1 or lits[0] not in ("METRES", "FEET", "CM"):
+                    continue
+                tys = sorted({x["n"] for x in walk(n["then"]) if x["k"] == "Ref" and x.get("d") == "Enum" and x["n"].startswith("UNIT_TYPE_")})
+                for t_ in tys:
+                    pairs.setdefault(lits[0], {}).setdefault(t_, []).append((f["q"], n["l"]))
+            if n["k"] == "Switch":
+                cur = None
+                for st in stmt_list(n["body"]):
+                    node = st
+                    while node is not None and node["k"] in ("Case", "Default"):
+                        if node["k"] == "Case":
+                            v = strip(node["v"])
+                            cur = v["n"] if v["k"] == "Ref" and v.get("d") == "Enum" and v["n"].startswith("UNIT_TYPE_") else None
+                        else:
+                            cur = None
+                        node = node.get("sub")
+                    if node is not None and cur:
+                        for x in walk(node):
+                            if x["k"] == "Str" and x["v"] in ("METRES", "FEET", "CM"):
+                                pairs.setdefault(x["v"], {}).setdefault(cur, []).append((f["q"], x["l"]))
+    n_sites = sum(len(w) for m_ in pairs.values() for w in m_.values())
+    if n_sites < 8:
+        raise core.AnalysisBroken("only %d (grid unit name, unit system) sites found in EclipseGrid.cpp (make_grid_units, save, EGRID loader)" % n_sites)
+    for name, m_ in sorted(pairs.items()):
+        chk.instance(r_un, name, sample=dict(grid_unit=name, unit_systems={k_: [w[0].split("::")[-1] + ":%d" % w[1] for w in v_] for k_, v_ in m_.items()}))
+        for t_, where in m_.items():
+            for w in where:
+                chk.instance(r_un, "%s@%d" % (name, w[1]), sample=dict(grid_unit=name, unit_system=t_, site=w[0]))
+        if len(m_) > 1:
+            major = max(m_.items(), key=lambda kv: len(kv[1]))[0]
+            for t_, where in m_.items():
+                if t_ != major:
+                    for w in where:
+                        chk.violation(r_un, "%s@%s" % (name, w[0].split("::")[-1]), "%s treats grid unit %s as %s; the other sites map it to %s: a grid written in one length unit is read back in another" % (w[0], name, t_, major), "/repo/" + EG, w[1])
+
     # ---- C13.gridunit: GRIDUNIT rescales every stored length array exactly once
     r_gu = chk.rule("C13.gridunit", "where the deck's GRIDUNIT differs from the deck units, each stored geometry array (m_coord, m_zcorn, m_rv and the retained input COORD/ZCORN that save() writes) is passed to apply_GRIDUNIT exactly once, and an application guarded by X.has_value() rescales that same X", floor=6)
     GEOM = ("m_zcorn", "m_coord", "m_rv", "m_input_coord", "m_input_zcorn")
